@@ -16,6 +16,14 @@ CHECKS = {
             "Every generated (input, depth) is scanned with the default registry and all four read-only views are run; "
             "exceptions are keyed by innermost repository frame, hangs by a CPU-time supervisor with solitary re-run. "
             "Exploration: held on the N executions observed, nothing proved.", "2/C01"),
+    "C03": ("runtime monitoring: structural tree invariant monitor on every scan result, decoder attribution through a registry tap",
+            "Every node of every result tree is checked for uniqueness, parent pointer, pre-order iteration and in-bounds "
+            "span; violations are attributed to the producing decoder call via object identity with tap snapshots. "
+            "Exploration over generated inputs; two known findings (pinned by tests) are listed.", "2/C03"),
+    "C19": ("runtime monitoring: reference-model oracle (independent substitution rule) on every node of random trees and scan results",
+            "Node.flatten of every node of ~10^5 random trees and ~10^4 scan results is compared with an independent "
+            "implementation of the stated rule; identity trees and undecoded scans must flatten unchanged; "
+            "squash_replace compared where no overlap skipping applies. Exploration.", "2/C19"),
 }
 
 TODO = {}
